@@ -91,7 +91,8 @@ def mk_walker_for_parsing(it, s, tolerant=None):
 
     def mkparser(kind):
         def f(it2, a, k):
-            return AbsVal(it2.ctx.fresh_int(kind), 'parser', attrs={'span_start': None, 'kind': kind, 'args': dict(k)})
+            return AbsVal(it2.ctx.fresh_int(kind), 'parser', attrs={'span_start': None, 'kind': kind, 'args': dict(k),
+                                                                    'may_eos': False})
         return Builtin(kind, f)
     w.fields['make_latex_group_parser'] = mkparser('group_parser')
     w.fields['make_latex_math_parser'] = mkparser('math_parser')
@@ -266,16 +267,16 @@ def register(reg):
         ensures=[
             ('reader-stays-in-the-string', '0 <= token_reader._pos and token_reader._pos <= len(self.s)'),
             ('reader-never-moves-backwards', 'old(token_reader._pos) <= token_reader._pos'),
-            ('strict:construct-is-nonempty',
-             'implies(not self.tolerant_parsing, %s < token_reader._pos)' % START),
             ('group-parser-always-yields-its-node', "implies(parser.kind == 'group_parser', result[0] is not None)"),
             ('delimited-parsers-consume-their-opening-delimiter',
              "implies(parser.kind == 'group_parser' or parser.kind == 'math_parser', %s < token_reader._pos)" % START),
             ('node-lies-in-range', 'result[0] is None or (%s <= result[0].pos and result[0].pos <= result[0].pos_end '
                                    'and result[0].pos_end <= len(self.s))' % START),
             ('strict:node-spans-exactly-what-was-consumed',
-             'implies(not self.tolerant_parsing, result[0] is not None and result[0].pos == %s and '
+             'implies(not self.tolerant_parsing and result[0] is not None, result[0].pos == %s and '
              'result[0].pos_end == token_reader._pos)' % START),
+            ('strict:a-node-unless-the-parser-may-meet-end-of-stream',
+             'implies(not self.tolerant_parsing and not parser.may_eos, result[0] is not None)'),
         ],
         raises={EXC + 'LatexWalkerParseError': {
             'when': 'not self.tolerant_parsing', 'make': make_parse_error,
@@ -284,6 +285,21 @@ def register(reg):
                         ('reader-never-moves-backwards', 'old(token_reader._pos) <= token_reader._pos')]}},
         modifies=[('token_reader._pos', 'int')],
         note='span contract of the parser interface; verified for parse_content given parser.parse in walker.py'))
+
+    @reg.spec('illegal_closer')
+    def illegal_closer(it, ps):
+        """the token just read was a closing brace, an \\end{...} or a math delimiter that opens nothing
+        (C05: such a token must raise unless it is the collector's stop token, in which case the exit is
+        ReachedStoppingCondition, not a normal return)"""
+        t = it.ctx.ghost.get('last_token')
+        if t is None:
+            return False
+        k = t.fields['tok']
+        if k in ('brace_close', 'end_environment'):
+            return True
+        if k in ('mathmode_inline', 'mathmode_display'):
+            return z_not(it.contains_term(t.fields['arg'], ps.fields['_math_delims_info_by_open']))
+        return False
 
     # ---- process_one_token --------------------------------------------------------------------------------------------
     def setup_pot(it):
@@ -320,7 +336,15 @@ def register(reg):
             it.ctx.assume(z3.Implies(ns.nonempty, zint(ns.first) <= zint(ns.end)))
         return ns
     fresh_nodeseq.wants_current = True
-    POT_MODIFIES = ['self._pending_chars', ('self._pending_chars_pos', ('opt', 'int')), 'self.token_reader._pos',
+
+    def calc_field(it, hint, cur=None):
+        # the walker creates its line-number calculator lazily (when a parse error is annotated) and keeps it
+        if cur is not None:
+            return cur
+        from contracts.walker import mk_calc
+        return mk_calc(it, it.fresh_str('calc_s'), it.ctx.fresh_int('lo'), it.ctx.fresh_int('fo'), it.ctx.fresh_int('co'))
+    calc_field.wants_current = True
+    POT_MODIFIES = [('self.latex_walker._line_no_calc', calc_field), 'self._pending_chars', ('self._pending_chars_pos', ('opt', 'int')), 'self.token_reader._pos',
                     ('self.parsing_state', lambda it, hint: mk_parsing_state(it, 'parsing_state_after', db_inv=True)),
                     ('self._stop_token_condition_met', 'bool'),
                     ('self._stop_token_condition_met_token', lambda it, hint: None),
@@ -333,7 +357,8 @@ def register(reg):
     c_pot = reg.add(Contract(
         COLL + '.process_one_token', setup=setup_pot,
         requires=COLL_REQ,
-        ensures=KEPT + [('progress', '%s > old(%s)' % (RD, RD))],
+        ensures=KEPT + [('progress', '%s > old(%s)' % (RD, RD)),
+                        ('illegal-closing-tokens-are-never-silently-accepted', 'not illegal_closer(old(self.parsing_state))')],
         raises={
             COLL + '.ReachedStoppingCondition': {'ensures': KEPT + [
                 ('stop-leaves-reader-at-or-after-entry', '%s >= old(%s)' % (RD, RD))]},
@@ -467,8 +492,9 @@ def register(reg):
         variant='len(%s) - %s' % (S, RD),
         havoc={'self._nodelist': lambda it, hint: NodeSeq(it.ctx.fresh_int('nodes.n'), it.ctx.fresh_int('nodes.end'), True, True,
                                                           it.ctx.fresh_int('nodes.first'), it.ctx.fresh_bool('nodes.nonempty')),
-               'self._pending_chars_pos': ('opt', 'int'), 'self.parsing_state': lambda it, hint: mk_parsing_state(it, 'ps_loop', db_inv=True)},
-        havoc_fields=['self._pending_chars', 'self._pending_chars_pos', 'self.token_reader._pos', 'self._nodelist',
+               'self._pending_chars_pos': ('opt', 'int'), 'self.parsing_state': lambda it, hint: mk_parsing_state(it, 'ps_loop', db_inv=True),
+               'self.latex_walker._line_no_calc': lambda it, hint: None},
+        havoc_fields=['self.latex_walker._line_no_calc', 'self._pending_chars', 'self._pending_chars_pos', 'self.token_reader._pos', 'self._nodelist',
                       'self.parsing_state', 'self._stop_token_condition_met', 'self._stop_token_condition_met_token',
                       'self._stop_nodelist_condition_met']))
     units['process_tokens'] = FunctionUnit(c_pt, split_depth=6)
